@@ -98,11 +98,12 @@ func main() {
 	facts["forkDir"] = forkDir
 	if forkDir != "" {
 		fcfg := &packages.Config{Mode: cfg.Mode, Dir: repo, Env: cfg.Env}
-		fp, err := packages.Load(fcfg, "github.com/ethereum/go-ethereum/core/vm", "github.com/ethereum/go-ethereum/core")
+		fp, err := packages.Load(fcfg, "github.com/ethereum/go-ethereum/core/vm", "github.com/ethereum/go-ethereum/core", "github.com/ethereum/go-ethereum/consensus/misc")
 		if err != nil {
 			fail("load fork: %v", err)
 		} else {
 			for _, p := range fp {
+				byPath[p.PkgPath] = p
 				switch p.PkgPath {
 				case "github.com/ethereum/go-ethereum/core/vm":
 					forkVM(p)
@@ -114,6 +115,11 @@ func main() {
 	} else {
 		fail("fork directory not found")
 	}
+
+	// go2lean: the regenerated functions (Facts/GenCode.lean)
+	okKeys, trErrs := translateAll(byPath, out+".gencode.lean")
+	facts["translated"] = okKeys
+	facts["translateErrors"] = trErrs
 
 	facts["errors"] = errs
 	bz, _ := json.MarshalIndent(facts, "", " ")
